@@ -52,9 +52,11 @@ QUICK_N = 300
 THOROUGH_N = 3000
 SHARD = 60
 DRIVER_TIMEOUT = 600
-RULE = ("executors' users, every run: 6 sqlx.BulkInserter scripts (Insert n / Tick / Flush and FORCED overlaps: an Exec is "
+RULE = ("30 held-callback scripts per run (the execute callback of a below-threshold batch flushed by a tick / Flush / Wait is "
+        "held while 1-5 more tasks are added, possibly past the threshold, or while a concurrent Wait is called; bulk and "
+        "chunk); executors' users, every run: 6 sqlx.BulkInserter scripts (Insert n / Tick / Flush and FORCED overlaps: an Exec is "
         "held while a second 1000-row batch is cut off and queued and more rows arrive; recording SqlConn; 1000-4000 rows "
-        "each) and 24 stat.Metrics scripts (Add / AddDrop / Tick / Flush, gated concurrent adders, Execute held while tasks "
+        "each) and 24 stat.Metrics scripts (flush periods with only drops / only timed tasks / both / nothing, closed by Tick or Flush, gated concurrent adders, Execute held while tasks "
         "arrive; tap in front of the container + report writer), x4 in the thorough tier; then scripts of 4-26 operations over unique task ids: Add (bulk maxTasks 1-4, or chunk maxChunkSize 5-20 with task "
         "sizes 0-12), Tick (offered to the live flusher's ticker, driver waits until the flusher is parked again), "
         "Advance n intervals of the virtual clock (n in 1,5,9,10,11,12,25), Flush, Wait, RaceTick (an Add parked "
@@ -284,6 +286,58 @@ def _stat_case(rng):
             ops.append({"op": "overlap", "via": rng.choice(["tick", "flush"]), "n": rng.randint(1, 6)})
     ops.append({"op": "flush"})
     return {"target": "stat", "chunk": False, "max": 10 ** 9, "ops": ops}
+
+
+def _hold_case(rng):
+    """A below-threshold batch is flushed by a tick / Flush / Wait and its execute callback is HELD while more tasks
+    are added (possibly reaching the threshold) or a concurrent Wait is called.  Mini simulation of the container
+    fill so that the held callback exists; with a waiter the tasks added meanwhile stay below the threshold (the
+    threshold hand-over overlapping a Wait is the known finding, driven by waitrace only)."""
+    chunk = rng.random() < 0.55
+    mx = rng.choice([8, 10, 13, 20]) if chunk else rng.choice([2, 3, 4])
+    ids = _Ids()
+    ops = []
+    fill = 0          # bytes / count in the container
+    commanded = False
+
+    def one(limit):
+        """an Add; limit: it keeps the container below the threshold"""
+        nonlocal fill, commanded
+        o = {"op": "add", "id": ids.next()}
+        if chunk:
+            room = mx - fill - 1
+            sz = rng.randint(0, max(0, min(room, 7))) if limit else rng.choice([1, 2, 3, 5, 7, 9])
+            o["size"] = sz
+            fill += sz
+        else:
+            fill += 1
+        if fill >= mx:
+            fill, commanded = 0, True
+        return o
+
+    for _ in range(rng.randint(2, 4)):
+        # make sure something below the threshold is in the container and the flusher is not in skip mode
+        if commanded:
+            ops.append({"op": "tick"})
+            commanded = False
+        if not chunk and mx - fill <= 1:
+            ops.append({"op": "flush"})
+            fill = 0
+        ops.append(one(True))
+        via = rng.choice(["tick", "tick", "flush", "wait"])
+        waiter = via != "wait" and rng.random() < 0.5
+        fill = 0
+        if waiter:
+            n = rng.randint(0, 2) if chunk else rng.randint(0, min(2, mx - 1))
+            during = [one(True) for _ in range(n)]
+            fill = 0          # the waiter's own Flush takes them
+        else:
+            during = [one(False) for _ in range(rng.randint(1, 5))]
+        ops.append({"op": "holdexec", "via": via, "waiter": waiter, "during": during})
+        for _ in range(rng.randint(0, 4)):
+            ops.append(one(False))
+    ops.append({"op": "wait"})
+    return {"chunk": chunk, "max": mx, "ops": ops}
 
 
 def _users(rng, tier):
